@@ -83,6 +83,20 @@ func (s *ServantProxy) VerifCheckStatus() {
 	}
 }
 
+// VerifKeepAlive sends one keep-alive ping (one-way tars_ping) on every adapter of the proxy
+// that has already carried a call - what the status check does for every adapter when
+// keep-alive-interval is configured, and the keep-alive ticker of push clients.
+func (s *ServantProxy) VerifKeepAlive() {
+	if em, ok := s.manager.(*endpointManager); ok {
+		em.epList.Range(func(k, v interface{}) bool {
+			if adp := v.(*AdapterProxy); adp.servantProxy != nil {
+				adp.doKeepAlive()
+			}
+			return true
+		})
+	}
+}
+
 // VerifRefresh runs one registry refresh of the proxy's endpoint manager.
 func (s *ServantProxy) VerifRefresh() error {
 	if em, ok := s.manager.(*endpointManager); ok {
